@@ -239,10 +239,11 @@ type EResult struct {
 }
 
 type clientConn struct {
-	id   int
-	c    net.Conn
-	rd   *bufio.Reader
-	back int
+	judged bool
+	id     int
+	c      net.Conn
+	rd     *bufio.Reader
+	back   int
 }
 
 // isClosed waits up to d for the connection to be closed by the other side.
@@ -352,7 +353,8 @@ func (r *e2eRun) anyHeld() bool {
 func (r *e2eRun) sweep(leaving map[int]bool, o *EObs) {
 	mustSet := map[int]bool{}
 	for id, cc := range r.clients {
-		if leaving[cc.back] {
+		if leaving[cc.back] && !cc.judged {
+			cc.judged = true // a relay is judged at the (first) removal of its host only
 			mustSet[id] = true
 			o.Must = append(o.Must, id)
 		}
@@ -370,8 +372,12 @@ func (r *e2eRun) sweep(leaving map[int]bool, o *EObs) {
 			d = r.shortD
 			if *r.longLeft > 0 {
 				d = r.longD
+			} else if len(o.MustOpen) > 0 {
+				d = r.shortD / 10 // the step has already waited a full deadline for another relay
 			}
-			o.DeadlineMs = int(d / time.Millisecond)
+			if ms := int(d / time.Millisecond); ms > o.DeadlineMs {
+				o.DeadlineMs = ms // the longest time a connection of this step was given to close
+			}
 		}
 		if cc.isClosed(d) {
 			o.ClosedNow = append(o.ClosedNow, id)
